@@ -498,6 +498,13 @@ def step (s : St) (w : List String) : St × String :=
                            judged := den.isSome }
         addSlot s (some sl) true s!"ok slot={s.slots.size} ; *"
     | _, _ => (s, "bad-op")
+  | ["it", "elems", sz, cnt] =>
+    -- an array of `cnt` elements of a basic type: the loop visits each element once and ends
+    match Dyadic.parseNat sz, Dyadic.parseNat cnt with
+    | some z, some c =>
+      if z < 2 ∨ z > 64 ∨ c = 0 ∨ c > 64 then (s, "bad-op")
+      else (s, s!"R walk n={c} stop=end | C - | I - | S walk n={c} stop=end ; *")
+    | _, _ => (s, "bad-op")
   | ["it", "msg", h1] => msgSlot s h1 "-"
   | ["it", "msg", h1, h2] => msgSlot s h1 h2
   | ["it", kind, h] =>
